@@ -40,7 +40,11 @@ def gen_scenario(c, n, mode, b, independent=True, n_rows=2, K=2, features="sym",
         s.lab = [c.choose([(0, True), (1, True)], f"labeled[{i}]") for i in range(n)]
     else:
         # with explicit candidates the labeled pattern only enters through y's validation: two patterns suffice
-        s.lab = [c.choose([(0, True), (1, True)], "labeled[0]")] + [0] * (n - 2) + ([1] if n > 1 else [])
+        pat = c.choose([(0, True), (1, True), (2, True)], "label_pattern")
+        if pat == 2:
+            s.lab = [1] * n        # fully labeled pool (the seed multiplier n_unlabeled + 1 is then 1)
+        else:
+            s.lab = [pat] + [0] * (n - 2) + ([1] if n > 1 else [])
     if sum(1 for v in s.lab if not v) < min_unlabeled:
         raise core.PathAbort("not enough unlabeled samples")
     rec(c, "labeled", list(s.lab))
